@@ -53,9 +53,15 @@ structure Desc where
   ctor : Nat := 0        -- which registered constructor value (`Constructor`)
   void : Bool := false   -- `VoidReturn`
   inst : Bool := false   -- `IsInstance`
+  /-- `siblings`: the instance keys `(type, key, group)` of the service-path descriptors created by
+  the same Add call, this one included. One invocation of the constructor stores its outputs under
+  all of them (scope.go:611-760). Group members are left out: their key is only known once they are
+  appended, and they cannot be removed. -/
+  stores : List (Nat × Key × Nat) := []
 deriving DecidableEq, Repr, Inhabited
 
 def Desc.ident (d : Desc) : Ident := (d.ty, d.key)
+def Desc.instKey (d : Desc) : Nat × Key × Nat := (d.ty, d.key, d.grp)
 def Desc.gkey (d : Desc) : GKey := (d.ty, d.grp)
 
 /-- leaves of an error chain -/
@@ -247,11 +253,17 @@ def Req.asItems (r : Req) (key0 : Key) : List Item :=
     { pre := if impl then none else some (.sentinel (.typeMismatch ity r.primary)),
       d := { r.base with ty := ity, key := key0, grp := r.group, inst := r.inst } }
 
+/-- `linkSiblings` (collection.go:810-814), done up front: in Go the descriptors of one call are
+linked after the loop; a call whose loop fails is rolled back, so nothing observes the difference -/
+def linkSiblings (items : List Item) : List Item :=
+  let keys := (items.filter fun it => it.d.key != .nil || it.d.grp == 0).map (·.d.instKey)
+  items.map fun it => { it with d := { it.d with stores := keys } }
+
 /-- which loop runs, with which wrapping operation -/
 def Req.fanout (r : Req) (key0 : Key) : Option (String × List Item) :=
-  if r.resultObj then some ("register result object field", r.fieldItems)
-  else if !r.inst && r.rets.length > 1 then some ("register multi-return type", retItems r 0 r.rets)
-  else if !r.as.isEmpty then some ("register as interface", r.asItems key0)
+  if r.resultObj then some ("register result object field", linkSiblings r.fieldItems)
+  else if !r.inst && r.rets.length > 1 then some ("register multi-return type", linkSiblings (retItems r 0 r.rets))
+  else if !r.as.isEmpty then some ("register as interface", linkSiblings (r.asItems key0))
   else none
 
 /-- the part of `addService` under the lock, before the deferred rollback (collection.go:542-722) -/
@@ -262,7 +274,8 @@ def addLocked (c : Coll) (r : Req) (key0 : Key) : Coll × Option Err :=
     match r.fanout key0 with
     | some (op, items) => registerEach op c items
     | none =>
-      match registerDescriptor c { r.base with key := key0, grp := r.group, void := r.void, inst := r.inst } with
+      let stores := if key0 != .nil || r.group == 0 then [(r.primary, key0, r.group)] else []
+      match registerDescriptor c { r.base with key := key0, grp := r.group, void := r.void, inst := r.inst, stores := stores } with
       | .ok c' => (c', none)
       | .error e => (c, some e)
 
